@@ -1150,11 +1150,11 @@ impl Check for CheckA {
     }
     fn rule(&self) -> String {
         match self.id {
-            "C01" => "seeded swarm over Prio3 instance classes x parameters x batches, executed as a multi-party run over the simulated transport with reordering, absorbed duplicates and crash/restart from encoded state; distinct = distinct (class, n, multiproof, reports, fault-kind sequence, outcome) signatures among runs that executed >= 1 verify_init".into(),
-            "C02" => "Byzantine client (library sharding over a raw invalid vector via the Evil<T> seam) or 1..3 alterations (bit/byte/truncate/extend/field-element add/non-canonical set, drop, extra share, cross-report splice) at every message class; robust, strict (single alteration) and must-reject oracles with 3-key confirmation; distinct = distinct (class, n, fault sequence incl. message class and mutation kind, outcome) signatures".into(),
-            "C03" => "seeded Poplar1 runs (bits 1..256, rare deep instances up to 2^16) over the simulated transport: batches with planted heavy hitters, admissible histories of 1..4 aggregation parameters on the same stored reports, both rounds through the wire, crash/restart between rounds, absorbed duplicates; prefix counts vs brute force; iterative heavy-hitters vs brute force; distinct as C01".into(),
+            "C01" => "seeded swarm over Prio3 instance classes x parameters x batches (a quarter of the instances over XofHmacSha256Aes128 or XofFixedKeyAes128 with 16-byte seeds; named and generic constructors, a third of the named instances served by a client on the generic-constructor twin), executed as a multi-party run over the simulated transport with reordering, absorbed duplicates, crash/restart from encoded state and, in a third of the runs, foreign work interleaved between the run's own library calls (sharding / verify_init of another task's report by the same thread: other context with the same nonce, or another instance of the same class); distinct = distinct (class, n, multiproof, reports, fault-kind sequence, outcome) signatures among runs that executed >= 1 verify_init".into(),
+            "C02" => "all shipped XOFs and the multithreaded variants; Byzantine client (library sharding over a raw invalid vector via the Evil<T> seam) or 1..3 alterations (bit/byte/same mask in two bytes/byte swap/truncate/extend/field-element add/non-canonical set, drop, extra share, cross-report splice) at every message class; robust, strict (single alteration) and must-reject oracles with 3-key confirmation; distinct = distinct (class, n, fault sequence incl. message class and mutation kind, outcome) signatures".into(),
+            "C03" => "seeded Poplar1 runs (bits 1..256, rare deep instances up to 2^16) over the simulated transport, a third of them with foreign work interleaved between the run's own library calls (another task's report under another context with the same nonce, or a Poplar1 instance of another bit length, sharded / verify_init-ed by the same thread): batches with planted heavy hitters, admissible histories of 1..4 aggregation parameters on the same stored reports, both rounds through the wire, crash/restart between rounds, absorbed duplicates; prefix counts vs brute force; iterative heavy-hitters vs brute force; distinct as C01".into(),
             "C04" => "Poplar1 world-A runs (bits 1..64, 1..3 reports, 1..2 aggregation parameters) with either a Byzantine client built by rewriting an honest report on the wire before fan-out (on-path value re-programmed to beta in {0,1,2,-1,random} with a consistent or inconsistent authenticator; seed / control-bit correction words mutated; A/B shares altered; IDPF key or correlated-randomness seed bytes flipped) and LABELLED by re-evaluating both keys over the candidates with the library's own Idpf::eval, or 1..3 in-flight alterations of public share, input shares, round-one / round-two sketch shares and sketch messages (plus drop / extra / spliced shares); robust (zero or one-hot 0/1), must-reject (label) and strict (single alteration where the sketch algebra guarantees it) oracles with 3-key confirmation; distinct as C02".into(),
-            "C13" => "fault-free world-A runs with 2..8 reports; per aggregator a seeded partition into batches, accumulate order, merge tree, identity merges; bytes compared with single-pass aggregate; wrong-length refusals; distinct as C01".into(),
+            "C13" => "fault-free world-A runs with 2..8 reports; per aggregator a seeded partition into batches, accumulate order, merge tree, identity merges; bytes compared with single-pass aggregate; mismatched shares (one element short / long, other tree level) offered by accumulate, merge and the batch entry point to the running aggregate and FIRST to a fresh aggregate that then takes the good batch (must equal the single pass); wrong-length refusals; distinct as C01".into(),
             "C18" => "configuration skew drawn at world creation: ctx / verify key / nonce / algorithm identifier (Prio3: the named aggregators run the same type under another 32-bit identifier) at one or all aggregators, identifier swap/steal/rotation incl. identifiers that agree only in the low byte and object-level skew; a quarter of the runs combine two mismatches of different kinds; oracle: some aggregator fails (3-key confirmation), or — when every component is the stated nonce exception or a key shared by all aggregators — verification finishes with output shares identical to the unskewed run".into(),
             _ => String::new(),
         }
